@@ -26,6 +26,7 @@ class Monitor:
     def __init__(self, hk):
         self.bad = []
         self.n_entries = 0
+        self.n_potential = 0
         self.n_refit_skipped = 0
         self.gaps = 0
         self.label_map = None       # labels (sorted unique) the current mode stats were fitted from
@@ -63,15 +64,16 @@ class Monitor:
             mon.check_entry(ass, ms)
         hk.wrap(mut, "parallel_mcmc", before=pm_before, label="parallel_mcmc")
 
-    def check_entry(self, ass, ms):
+    def check_entry(self, ass, ms, potential=False):
         K = ms.K
+        who = "a pool particle that resampling can select (weight*N > 1e-6)" if potential else "an active particle"
         lm = self.label_map
         gap = lm is not None and lm != list(range(len(lm)))
         if gap:
             self.gaps += 1
         if ass.min() < 0 or ass.max() >= K:
             self.bad.append(("label-gap" if lm is not None else "assignment-out-of-range",
-                             f"a particle carries cluster label {int(ass.max())} but only K={K} proposal modes exist "
+                             f"{who} carries cluster label {int(ass.max())} but only K={K} proposal modes exist "
                              f"(mode statistics were built from training labels {lm})"))
             return
         if lm is not None and self.boxes:
@@ -164,6 +166,18 @@ def pool_case(seed, cfg):
                     w = np.where(lab_all == dead % len(cent), w * 1e-30, w)
             w = w * rng.dirichlet(np.full(len(w), 2.0))
             w = w / w.sum()
+            # directed scenario: between refits, one *chosen* cluster label (every label gets its turn, incl. the
+            # highest one) loses all its trimmed training points but keeps ~0.3% of the resampling mass
+            nonrefit = clusterer.n_clusters_ >= 2 and it % cfg["cluster_every"] != 0
+            if cfg.get("victim") is not None and nonrefit:
+                labs = np.asarray(clusterer.predict(allu))
+                v = cfg["victim"] % clusterer.n_clusters_
+                vm = labs == v
+                if 0 < vm.sum() < len(labs):
+                    w = rng.uniform(0.8, 1.2, len(labs))
+                    w[vm] *= 0.003 * w[~vm].sum() / w[vm].sum()
+                    w = w / w.sum()
+                    out["directed"] = out.get("directed", 0) + 1
             try:
                 ms = tr.run(w.copy())
                 rs.run(w.copy())
@@ -178,6 +192,12 @@ def pool_case(seed, cfg):
                 break
             out["K_seen"].append(int(ms.K))
             cur = sm.get_current()
+            # every pool particle that resampling can select (weight not negligible) is a potential active particle
+            live = w * N > 1e-6
+            if live.any():
+                pot = np.asarray(clusterer.predict(allu[live]))
+                mon.n_potential += int(live.sum())
+                mon.check_entry(pot, ms, potential=True)
             # the kernel boundary: hand exactly what Mutator.run would hand over
             try:
                 mut.parallel_mcmc(u=cur["u"], x=cur["x"], logl=cur["logl"], blobs=None, assignments=cur["assignments"], beta=beta_now,
@@ -191,6 +211,7 @@ def pool_case(seed, cfg):
         out["bad"] += mon.bad
         out["entries"] = mon.n_entries
         out["gaps"] = mon.gaps
+        out["potential"] = mon.n_potential
     return out
 
 
@@ -203,6 +224,21 @@ def real_case(cfg, resume=False):
         with attach.Hooks() as hk:
             mon = Monitor(hk)
             attach.iteration_budget(hk, 400)
+            from tempest.steps.resample import Resampler
+            from tempest.steps.train import Trainer
+            last_ms = {}
+            hk.wrap(Trainer, "run", after=lambda ctx, r, self, w: last_ms.__setitem__("ms", r))
+
+            def rs_after(ctx, r, self, weights):
+                if not self.clustering or self.state.get_current("beta") == 0.0 or "ms" not in last_ms:
+                    return
+                wv = np.asarray(weights)
+                live = wv * self.n_particles > 1e-6
+                if live.any():
+                    allu = self.state.get_history("u", flat=True)
+                    mon.n_potential += int(live.sum())
+                    mon.check_entry(np.asarray(self.clusterer.predict(allu[live])), last_ms["ms"], potential=True)
+            hk.wrap(Resampler, "run", after=rs_after)
             np.random.seed(c["seed"])
             if resume:
                 from tvf.checks.c08 import tmpdir
@@ -239,6 +275,7 @@ def real_case(cfg, resume=False):
     out["entries"] = mon.n_entries
     out["gaps"] = mon.gaps
     out["fits"] = mon.fit_seen
+    out["potential"] = mon.n_potential
     return out
 
 
@@ -252,7 +289,8 @@ def run():
                    thr=float(rng.choice([0.5, 1.0])), normalize=bool(rng.integers(2)), cluster_every=int(rng.choice([1, 2, 3, 5])),
                    resample=str(rng.choice(["mult", "syst"])), iters=int(rng.integers(4, 9)), start_iter=int(rng.integers(0, 4)),
                    decay=float(rng.choice([0.5, 1.0, 2.0])), kernel=str(rng.choice(["tpcn", "rwm"])),
-                   sudden=(None if rng.random() < 0.4 else (int(rng.integers(3)), int(rng.integers(1, 5)))))
+                   sudden=(None if rng.random() < 0.4 else (int(rng.integers(3)), int(rng.integers(1, 5)))),
+                   victim=(None if rng.random() < 0.5 else int(rng.integers(0, 12))))
         tasks.append(("tvf.checks.c14:pool_case", dict(seed=ck.subseed("pool", i), cfg=cfg), None))
     for i, st, val in farm.run(tasks, timeout=600, progress="C14-pools"):
         kw = tasks[i][1]
@@ -264,7 +302,9 @@ def run():
             continue
         ck.case(dict(pool=kw["cfg"], kind=val["kind"]), nontrivial=max(val["K_seen"] or [0]) > 1)
         ck.event("synthetic pool sequences through Trainer.run + Resampler.run")
+        ck.event("directed iterations (a chosen label loses all trimmed training points between refits)", val.get("directed", 0))
         ck.event("kernel entries (parallel_mcmc) checked", val["entries"])
+        ck.event("potential assignments (selectable pool particles) checked", val.get("potential", 0))
         ck.event("iterations where the predicted label set had a gap", val["gaps"])
         seen = set()
         for key, what in val["bad"]:
@@ -291,6 +331,7 @@ def run():
         ck.case(dict(real=kw["cfg"], resume=kw["resume"]), nontrivial=val["fits"] > 0)
         ck.event("monitored real runs" + (" (with resume)" if kw["resume"] else ""))
         ck.event("kernel entries (parallel_mcmc) checked", val["entries"])
+        ck.event("potential assignments (selectable pool particles) checked", val.get("potential", 0))
         ck.event("iterations where the predicted label set had a gap", val["gaps"])
         seen = set()
         for key, what in val["bad"]:
